@@ -134,6 +134,8 @@ where
                 any_subscriber
             }
             let any_subscriber = inner_1(&self.reactivity);
+            #[cfg(leptos_verif)]
+            crate::verif_hooks::yield_point("memo:cleared");
 
             let (new_value, changed) = self.owner.with_cleanup(|| {
                 any_subscriber.with_observer(|| {
@@ -163,6 +165,8 @@ where
                 if changed {
                     let subs = reactivity_lock.subscribers.clone();
                     drop(reactivity_lock);
+                    #[cfg(leptos_verif)]
+                    crate::verif_hooks::yield_point("memo:unlocked");
                     for sub in subs {
                         // don't trigger reruns of effects/memos
                         // basically: if one of the observers has triggered this memo to
